@@ -53,14 +53,6 @@ PROPOSED_KNOWN = [
      "trigger": "ScatterAsked", "ops": ["batch"],
      "what": "batch --scatter writes <sample>-scatter.png (PNG) although `batch -h` says 'Create a whole-genome copy ratio "
              "profile as a PDF scatter plot' and doc/pipeline.rst lists Sample-scatter.pdf"},
-    {"id": "F-X08-antitarget-msg-placeholder", "status": "open", "property": "X08",
-     "clauses": ["antitarget_refusal_names_protocol"], "trigger": "NonHybridAntitargets", "ops": ["batch"],
-     "what": "batch -m wgs|amplicon with -a: the refusal message shows the raw placeholder '{method!r} protocol: "
-             "antitargets should not be given/specified.' (r-string instead of f-string in batch_make_reference)"},
-    {"id": "F-X08-reuse-no-samples-typeerror", "status": "open", "property": "X08", "clauses": ["completes_when_options_valid"],
-     "trigger": "ReuseNoSamples", "ops": ["batch"],
-     "what": "batch -r REF.cnn without any sample BAM raises TypeError (object of type 'NoneType' has no len()): the 'No "
-             "tumor/test samples' log line takes len(args.normal), which is None whenever -r is used"},
     {"id": "F-X08-diagram-all-genes-multibin", "status": "open", "property": "X08",
      "clauses": ["completes_when_options_valid", "diagram_output_pdf"], "trigger": "DiagramEveryGeneSquashed", "ops": ["batch"],
      "what": "batch --diagram (and `diagram S.cnr -s S.call.cns`) raises ValueError '9 columns passed, passed data had 7 columns' "
@@ -68,10 +60,6 @@ PROPOSED_KNOWN = [
              "reports.gene_metrics_by_segment adds the segment table's extra columns (cn, p_ttest) to the caller's cnarr, "
              "CopyNumArray.squash_genes then emits rows without them; in a process pool (-p N) the error is swallowed and "
              "the PDF is silently missing"},
-    {"id": "F-X08-to-chunks-gz", "status": "open", "property": "X08", "clauses": ["chunks_partition"],
-     "trigger": "GzBed", "ops": ["chunks"],
-     "what": "parallel.to_chunks on a .gz BED raises TypeError (gzip.open in binary mode, lines written to a text file), "
-             "so `coverage -p 2` cannot take a gzipped BED although the function has a branch for it"},
 ]
 
 REPO = os.environ.get("VERIF_REPO", "/repo")
